@@ -11,12 +11,18 @@ fn adler(d: &[u8]) -> u32 { crate::sgen::adler32(d) }
 
 /// all 65536 headers in front of a fixed valid body ("a" as a fixed block), flat and ring buffers
 fn headers(ctx: &mut Ctx) {
+    headers_with(ctx, &[0, 1, 128, 256, 512, 1024, 2048, 4096, 8192, 16384, 32768, 65536], false);
+    ctx.count_n("headers_flat", 65536);
+}
+
+/// `only_checked`: only the headers whose FCHECK is right (the others are rejected before any other field is looked at)
+pub fn headers_with(ctx: &mut Ctx, rings: &[usize], only_checked: bool) {
     let body: [u8; 3] = [0x4b, 0x04, 0x00]; // fixed block: literal 'a', EOB
     let tr = adler(b"a").to_be_bytes();
-    let rings: Vec<usize> = vec![0, 1, 128, 256, 512, 1024, 2048, 4096, 8192, 16384, 32768, 65536];
     for cmf in 0..256usize { for flg in 0..256usize {
         // every header flat; ring sizes on a stride (every valid-looking header gets all ring sizes)
         let looks_valid = (cmf * 256 + flg) % 31 == 0;
+        if only_checked && !looks_valid { continue; }
         for (ri, &ring) in rings.iter().enumerate() {
             if ring != 0 && !looks_valid && (cmf + flg + ri) % 37 != 0 { continue; }
             let id = ctx.id();
@@ -34,7 +40,6 @@ fn headers(ctx: &mut Ctx) {
             ctx.line(&format!("HDR id={} cmf={} flg={} ring={} st={}", id, cmf, flg, ring, st as i32));
         }
     } }
-    ctx.count_n("headers_flat", 65536);
 }
 
 /// trailer / body corruptions of a valid zlib stream through every entry point
